@@ -507,7 +507,14 @@ def run(tier, replay=None):
     if not rr.violated:
         raise MachineryError('LoadThreads: the race on the shared cell should '
                              'be reachable (vacuity check)')
+    # PyYAML's tables as they are before this process has created or called
+    # any yatiml function (the forced race below performs real loads)
+    _W['base'] = base_snapshot()
     forced_race(V)
+    if base_snapshot() != _W['base']:
+        V.violation({'part': 'forced_race'},
+                    'loading (the forced racy schedule) changed PyYAML\'s own '
+                    'registries or the behaviour of yaml.safe_load/safe_dump')
     cases = r.cases
     if not cases:
         raise MachineryError('no Registry histories exported')
@@ -561,7 +568,6 @@ def run(tier, replay=None):
     chosen = seq_cases[:limit] + par_cases[:limit // 20]
     _W['classes'] = make_classes()
     _W['ref'] = ref
-    _W['base'] = base_snapshot()
     _W['cvars'] = class_vars(_W['classes'])
     for c in chosen:
         errs, n = replay_history(c)
